@@ -60,10 +60,10 @@ CHECKS = {
             "Purity is a universal claim over histories and schedules. E2 closes all call sequences up to depth 2 (3 thorough) over a 414-call main alphabet and a 448-call coercion alphabet (the same ambiguous operand under every coercion family) starting from every reached state - a state being a process snapshot, so any hidden memory whatsoever is carried along; E3-fine (a second, nightly build of the tree under test with -Z instrument-mcount: every function entry, incl. monomorphised std lock / collection operations and any newly added function, is a scheduling point - no source change) closes all schedules with at most one preemption of every pair of 3 (16 thorough) tiny calls; E3 closes all schedules of ~180 two- and three-thread harnesses (every pair of 18 operator families incl. identical pairs on a shared rule, hand-picked collision-prone bodies, 100-deep rules) within the preemption bound. Every configuration is explored twice: warm (all schedules in one process) and cold (every schedule and every reference call in a forked child of a process that never evaluated anything, so that first uses of lazily built process-wide state race in every schedule). Every execution is compared with the isolated outcome (value, Err-ness, log lines, input integrity) and followed by a sequential repetition of its calls (aftermath: damage visible only to later calls); replayed schedules must reproduce. Thorough tier adds, as a proviso only, the same thread bodies free-running under miri's data-race detector.",
             "5/C17", "interleavings finer than a function entry are not explored, and below hook-point granularity only at preemption bound 1 for the small calls of E3-fine (the free-running runs are provisos, not the deciding step); a thread found blocked on a real lock is detected by a 40 ms watchdog; histories longer than 3 calls are not enumerated"),
     "C18": ("E4", "exhaustive exploration of the real binary: full product rule text x data text x delivery form (argument / stdin / stdin with '-' / argument with junk on stdin) and all two-stage pipelines over the valid texts, every process run compared with the library in-process",
-            "The wrapper adds argument parsing, stdin handling, printing and the exit status; each of these is decided by running the real binary built from the working tree on every member of the stated product (45 rule texts x 24 data texts x 4 forms + deep nesting + ~3000 chains) and comparing stdout and exit status exactly with what the library does on the same texts.",
+            "The wrapper adds argument parsing, stdin handling, printing and the exit status; each of these is decided by running the real binary built from the working tree (debug and release profile, both tiers) on every member of the stated product (45 rule texts x 24 data texts x 4 forms + deep nesting + ~3000 chains) and comparing stdout and exit status exactly with what the library does on the same texts.",
             "5/C18", "texts outside the stated lists are not covered; option-like non-JSON texts (-h, --help) are options, not texts; OS-level faults on stdout are outside the quantifier"),
     "C19": ("E4", "exhaustive exploration of the real Python package: full product (rule object x data object x entry point x combination of omitted / supplied optional arguments), every call compared with the library reached through the harness oracle",
-            "The wrapper adds JSON encoding/decoding, defaults for omitted arguments and the exception mapping; all of it is decided by calling the real package (extension built from the working tree) on every member of 62 rules x 26 data x 17 call forms (+ malformed texts and broken serializers) and comparing value (type-strictly) or exception type with the library's own result; plus a DFS over sequences of calls (depth 2, 3 thorough) whose states are os.fork() snapshots of the interpreter, each call compared with its isolated outcome (wrapper-level caches, default-argument state).",
+            "The wrapper adds JSON encoding/decoding, defaults for omitted arguments and the exception mapping; all of it is decided by calling the real package (extension built from the working tree in the debug and the release profile, both tiers) on every member of 62 rules x 26 data x 17 call forms (+ malformed texts and broken serializers) and comparing value (type-strictly) or exception type with the library's own result; plus a DFS over sequences of calls (depth 2, 3 thorough) whose states are os.fork() snapshots of the interpreter, each call compared with its isolated outcome (wrapper-level caches, default-argument state; the alphabet includes calls that edit the same rule / data objects in place); texts that are not Unicode text (lone surrogates) in every text position.",
             "5/C19", "objects that json.dumps cannot encode are outside the property; CPython's json module is trusted"),
 }
 
